@@ -75,3 +75,67 @@ if __name__ == "__main__":
         confirm(sys.argv[2], sys.argv[3])
     elif sys.argv[1] == "detect":
         detect(sys.argv[2], sys.argv[3:])
+
+
+# ---------------------------------------------------------------- sandboxed sweep (does not touch /repo or /verif's working tree)
+def sweep(ids, jobs=3):
+    """Run the quick check of each seed's property against a scratch worktree of /repo carrying the seed, from a snapshot of the
+    COMMITTED /verif (git archive HEAD), several at a time.  Results go to seeded/<id>/meta.json ("detection") and to stdout."""
+    import concurrent.futures, glob
+    base = tempfile.mkdtemp(prefix="sv-base-", dir="/tmp")
+    rc, out = sh("git -C %s archive HEAD | tar -x -C %s" % (VERIF, base))
+    assert rc == 0, out
+    shutil.rmtree(os.path.join(base, "seeded"), ignore_errors=True)
+    rc, out = sh(["./check", "setup"], cwd=base, timeout=3000)
+    assert rc == 0, out
+    if not ids:
+        ids = sorted(os.path.basename(os.path.dirname(p)) for p in glob.glob(os.path.join(VERIF, "seeded", "C*", "meta.json")))
+
+    def one(sid):
+        dst = os.path.join(VERIF, "seeded", sid)
+        meta = json.load(open(os.path.join(dst, "meta.json")))
+        prop = meta.get("property", sid.split("-")[0])
+        sv = tempfile.mkdtemp(prefix="sv-%s-" % sid, dir="/tmp")
+        sw = sv + "-repo"
+        try:
+            sh(["rsync", "-a", base + "/", sv + "/"])
+            rc, out = sh(["git", "-C", "/repo", "worktree", "add", "-q", "--detach", sw, "HEAD"])
+            assert rc == 0, out
+            rc, out = sh(["git", "-C", sw, "apply", os.path.join(dst, "patch.diff")])
+            assert rc == 0, out
+            gm = os.path.join(sv, "harness", "go.mod")
+            open(gm, "w").write(open(gm).read().replace("=> /repo", "=> " + sw))
+            t0 = time.time()
+            p = subprocess.run([os.path.join(sv, "check"), prop, "--tier", "quick"], cwd=sv, env=dict(ENV, VERIF_REPO=sw),
+                               stdout=subprocess.PIPE, stderr=subprocess.STDOUT, text=True, timeout=3000)
+            viol = [l for l in p.stdout.split("\n") if l.startswith("VIOLATION")]
+            res = {"exit": p.returncode, "lines": viol[:4], "wall_s": round(time.time() - t0, 1),
+                   "with_input": any("no-failing-input-found" not in l for l in viol)}
+        except Exception as e:  # noqa
+            res = {"exit": -1, "lines": ["sweep error: %s" % e], "wall_s": 0, "with_input": False}
+        finally:
+            sh(["git", "-C", "/repo", "worktree", "remove", "--force", sw])
+            shutil.rmtree(sv, ignore_errors=True)
+        meta.setdefault("detection", {})[prop] = res
+        json.dump(meta, open(os.path.join(dst, "meta.json"), "w"), indent=1)
+        print(sid, prop, "exit", res["exit"], "input" if res["with_input"] else "NO-INPUT", res["lines"][:1], flush=True)
+        return sid, res
+
+    results = {}
+    with concurrent.futures.ThreadPoolExecutor(max_workers=jobs) as ex:
+        for sid, res in ex.map(one, ids):
+            results[sid] = res
+    shutil.rmtree(base, ignore_errors=True)
+    sh(["git", "-C", "/repo", "worktree", "prune"])
+    missed = [s for s, r in results.items() if r["exit"] != 1]
+    weak = [s for s, r in results.items() if r["exit"] == 1 and not r["with_input"]]
+    print("SWEEP: %d seeds, %d detected with a failing input, %d only without input %s, %d missed %s" %
+          (len(results), len(results) - len(missed) - len(weak), len(weak), weak, len(missed), missed))
+
+
+if __name__ == "__main__" and sys.argv[1] == "sweep":
+    jobs = 3
+    args = sys.argv[2:]
+    if args and args[0].startswith("--jobs="):
+        jobs = int(args[0].split("=")[1]); args = args[1:]
+    sweep(args, jobs)
